@@ -100,6 +100,8 @@ def file_into(rep: Report, prop: str, tier: str, kinds=None, only=None, all_cont
         if not c.verify:
             rep.assume(f"ASSUMED contract (body not verified): {short} -- {c.why_assumed}")
             continue
+        for r, why in c.requires_assumed.items():
+            rep.assume(f"ASSUMED ghost precondition of {short} (not checked at its call sites): `{r}` -- {why}")
         d = res.get(name)
         if d is None:
             rep.undecided(f"{prop}.E1.{short}", "contract", f"verify {short}", "pyvc", "no result (file failed to load)", function=name)
